@@ -999,6 +999,20 @@ func ruleParLineBreak(c *Ctx, r *R) {
 				continue
 			}
 			stops++
+			// the answer may be a lookup of the previous token's symbol in a package-level set
+			// (map[string]bool literal that is never written): its true keys are the symbols
+			if rt := st.Ret[0]; rt.Op == "index" && len(rt.Args) == 2 && rt.Args[0].Op == "var" && strings.HasSuffix(rt.Args[1].String(), ".Symbol") {
+				if v, ok := rt.Args[0].Obj.(*types.Var); ok && v.Parent() == c.Types.Scope() && !c.mapMutated(v) {
+					if cl := c.mapLit(v.Name()); cl != nil {
+						vals, _ := c.stringKeyed(cl)
+						for k, ve := range vals {
+							if id, ok := unparen(ve).(*ast.Ident); ok && id.Name == "true" {
+								seen[k] = true
+							}
+						}
+					}
+				}
+			}
 			lineCmp := false
 			for _, cd := range st.Conds {
 				s := cd.String()
